@@ -181,7 +181,8 @@ CLAIMED["C12"] = dict(
         "before C is complete stays inside C (C12_upgma_clade_100), hence the copies form a clade (C12_copies_form_clade); identical groups align on the diagonal (C08) and "
         "move together afterwards (C10). Tie: bit-exact correspondence of calc_distance, the distance matrix, upgma and the whole n<100 guide tree; exact-vs-binary32 UPGMA "
         "agreement measured on margin-safe inputs. Oracle: duplicate groups in sets of 2..99 under the containment premise (independent substring test on full and reduced alphabet).",
-   note="A-float (binary32 averaging vs exact: margin 0.4). For sequences longer than 1024 symbols the theorem needs non-containment of the 1024-prefixes (bpm_block's cap); "
+   note="The guide-tree part is also proved on binary32 itself (Props/C12Soft: C12Soft_copies_form_clade / C12Soft_smallTree_clade over the SoftF32 twins of the distance matrix "
+        "and UPGMA, tied bit-for-bit to the C routines by dist_matrix_soft / upgma_soft / tree_soft), so no float assumption is left there. For sequences longer than 1024 symbols the theorem needs non-containment of the 1024-prefixes (bpm_block's cap); "
         "the end-to-end claim for such inputs is searched, not proved.",
    technique="Lean 4 invariant proof over UPGMA iterations + C11 spec; differential correspondence; duplicate-rows oracle",
    ref="4 C12")
